@@ -307,6 +307,39 @@ def reexecute(n1: int, n2: int, k: int, use_one: bool, as_dict: bool) -> bool:
 
 
 @ob(
+    "C05.executemany_leaves_the_last_result",
+    encodes=["fakesnow.cursor.FakeSnowflakeCursor.executemany", "FakeSnowflakeCursor.execute/_execute (result reset)", "fetchall", "fetch_pandas_all", "rowcount"],
+    bounds="executemany of a row-producing statement with m <= 3 parameter sets (m = 0 after an earlier execute included); each execution's result has n <= 3/4 rows; "
+    "afterwards rowcount, fetch_pandas_all and fetchall all describe the rows of the LAST execution (or, for m = 0, still the earlier result); dict or tuple cursor",
+    timeout=(180, 600),
+    stubs=["K5 StubTable", "K1 ResultDuck"],
+)
+def executemany_result(n0: int, n: int, m: int, as_dict: bool) -> bool:
+    """
+    pre: 0 <= n0 <= 3 and 0 <= n <= N - 1 and 0 <= m <= 3
+    post: _
+    """
+    duck = ResultDuck()
+    conn = _conn(duck)
+    cur = conn.cursor(DictCursor) if as_dict else conn.cursor()
+    rows0 = [(500 + r,) for r in range(n0)]
+    duck.table = StubTable(["C"], rows0)
+    cur.execute("select c from t0")
+    rows = [(700 + r,) for r in range(n)]
+    duck.table = StubTable(["C"], rows)
+    cur.executemany("select c from t2 where c > %s", [(j,) for j in range(m)])
+    want = rows if m > 0 else rows0
+    if cur.rowcount != len(want):
+        return done(False)
+    frame = cur.fetch_pandas_all()
+    if frame != ("pandas-frame", ["C"], want):
+        return done(False)
+    got = cur.fetchall()
+    exp = [{"C": r[0]} for r in want] if as_dict else want
+    return done(list(got) == exp and cur.fetchone() is None)
+
+
+@ob(
     "C05.fetch_before_execute_raises",
     encodes=["fakesnow.cursor.FakeSnowflakeCursor.fetchone/fetchmany/fetchall/fetch_pandas_all/get_result_batches (no result set)"],
     bounds="which of the four fetch entry points (0..3), fetchmany size 0..5/7, dict or tuple cursor",
